@@ -208,10 +208,28 @@ pub struct CliTexts {
 fn hostile_text(seed: u64, idx: u64) -> (String, &'static str) {
     use crate::gen::tok::{nesting, NEST_DEPTHS};
     let mut rng = crate::util::Rng::for_case(seed, "c04proc", idx);
-    match idx % 6 {
+    match idx % 7 {
+        6 => {
+            // import strings with URL syntax in them; `module.oal` exists next to the main module
+            const IMPORTS: [&str; 30] = [
+                "module.oal#v1", "module.oal?x=1", "./module.oal#", "module.oal#a#b", "%6dodule.oal", "module.oal%23v1", "module.oal%00",
+                "file:///etc/hostname", "http://example.com/module.oal", "../module.oal", "module.oal/", "", ".", "..", "/",
+                "//module.oal", "\\module.oal", "mailto:x", "#", "?", "main.oal#self", "main.oal?again", "./main.oal", "x/../module.oal#y",
+                "module.oal#é😉", "module .oal", "module.oal\t", "file:module.oal", "file://localhost/module.oal", "a/b/c/../../../module.oal#z",
+            ];
+            let a = *rng.pick(&IMPORTS);
+            let b = *rng.pick(&IMPORTS);
+            let t = match rng.below(4) {
+                0 => format!("use \"{a}\" as m;\nres / on get -> <m.v>;\n"),
+                1 => format!("use \"{a}\";\nres / on get -> <v>;\n"),
+                2 => format!("use \"{a}\" as m;\nuse \"{b}\" as n;\nlet w = m.f n.v;\nres / on get -> <w>;\n"),
+                _ => format!("use \"module.oal\" as m;\nuse \"{a}\" as m;\nres / on get -> <m.v>;\n"),
+            };
+            (t, "import-strings")
+        }
         0 => {
-            let fam = (idx / 6) as usize % 22;
-            let d = NEST_DEPTHS[(idx / 108) as usize % NEST_DEPTHS.len()];
+            let fam = (idx / 7) as usize % 22;
+            let d = NEST_DEPTHS[(idx / 154) as usize % NEST_DEPTHS.len()];
             (nesting(fam, d).unwrap_or_default(), "nesting")
         }
         1 => (crate::gen::mutate::random_text(&mut rng), "random"),
@@ -236,6 +254,7 @@ fn hostile_text(seed: u64, idx: u64) -> (String, &'static str) {
 fn check_cli_text(t: &str, family: &str, st: &mut Stats) -> Vec<Violation> {
     let dir = TempDir::new("c04cli");
     std::fs::write(dir.path.join("main.oal"), t).unwrap();
+    std::fs::write(dir.path.join("module.oal"), "let v = { 'a num };\nlet f x = { 'w x };\n").unwrap();
     let r = run_cli(&dir.path, "main.oal", "out.yaml", None);
     st.inc(&format!("cli:{family}:{}", if r.success() { "ok" } else { "failed" }));
     let mut out = Vec::new();
@@ -290,6 +309,7 @@ fn typing_session(seed: u64, idx: u64, st: &mut Stats) -> Vec<Violation> {
     let mut rng = crate::util::Rng::for_case(seed, "c04lsp", idx);
     let dir = TempDir::new("c04lsp");
     std::fs::write(dir.path.join("main.oal"), "res / on get -> {};\n").unwrap();
+    std::fs::write(dir.path.join("module.oal"), "let v = { 'a num };\nlet f x = { 'w x };\n").unwrap();
     std::fs::write(dir.path.join("oal.toml"), "[api]\nmain = \"main.oal\"\ntarget = \"out.yaml\"\n").unwrap();
     let uri = file_uri(&dir.path.join("main.oal"));
     let fail = |e: LspError, what: &str, text: &str| -> Vec<Violation> {
@@ -333,8 +353,8 @@ fn typing_session(seed: u64, idx: u64, st: &mut Stats) -> Vec<Violation> {
             st.inc("requests_after_keystrokes");
         }
     }
-    for j in 0..6 {
-        let (t, _) = hostile_text(seed, idx * 6 + j);
+    for j in 0..7 {
+        let (t, _) = hostile_text(seed, idx * 7 + j);
         version += 1;
         if let Err(e) = lsp.did_change(&uri, version, &[(None, t.clone())]) {
             return fail(e, "pasting", &t);
